@@ -750,10 +750,26 @@ pub fn check(ctx: &Ctx) {
             })
         })
         .collect();
+    // the class "other" represented by an octet that is not valid UTF-8 on its own (a conversion
+    // of the text to a string would not be faithful)
+    const ABC_E9: [&[u8]; 3] = [b"\r", b"\n", b"\xe9"];
+    let s9 = common::all_strings(&ABC_E9, ctx.tier.pick(4, 5));
+    let pairs: Vec<PairCase> = pairs
+        .into_iter()
+        .chain(s9.iter().flat_map(|s| s9.iter().map(move |t| PairCase { s: s.clone(), t: t.clone() })))
+        .collect();
+    let strings_p9 = common::all_strings(&ABC_E9, ctx.tier.pick(6, 7));
+    ctx.run_space(
+        "hasher_public_non_utf8",
+        true,
+        "the same as hasher_public with the class `other` represented by the octet E9 (not valid UTF-8 on its own): all strings over {CR,LF,E9} of length <= 6 (thorough 7)",
+        strings_p9.par_iter().map(|s| TextCase { s: s.clone() }),
+        run_hasher_public,
+    );
     ctx.run_space(
         "sign_verify_pairs",
         true,
-        &format!("all ordered pairs (s,t) of strings of length <= {lq}: DetachedSignature::sign_text_data over s verifies over t - detached, and carried in front of a literal packet holding t (Message::verify) - iff canon(s) = canon(t)"),
+        &format!("all ordered pairs (s,t) of strings over {{CR,LF,x}} of length <= {lq} and over {{CR,LF,E9}} (an octet that is not valid UTF-8) of length <= 4 (thorough 5): DetachedSignature::sign_text_data over s verifies over t - detached, and carried in front of a literal packet holding t (Message::verify) - iff canon(s) = canon(t)"),
         pairs.into_par_iter(),
         run_pair,
     );
@@ -823,7 +839,7 @@ pub fn check(ctx: &Ctx) {
 pub fn replay(space: &str, case: &Value) -> Option<Outcome> {
     match space {
         "hasher_h2" => replay_as(case, run_hasher_h2),
-        "hasher_public" => replay_as(case, run_hasher_public),
+        "hasher_public" | "hasher_public_non_utf8" => replay_as(case, run_hasher_public),
         "normalized_reader" => replay_as(case, run_reader),
         "normalize_lines" => replay_as(case, run_in_memory),
         "sign_verify_pairs" => replay_as(case, run_pair),
